@@ -21,6 +21,8 @@ pub enum Sop {
 	W,
 	/// commit of a value that does not fit what is left of the memtable (rotation inside apply)
 	Big,
+	/// commit of a value larger than the whole memtable: must fail cleanly (BatchTooLarge)
+	TooBig,
 	/// create_checkpoint into a scratch directory (flushes every memtable synchronously)
 	Checkpoint,
 	/// run the background tasks until quiescent
@@ -32,6 +34,7 @@ fn sop_str(o: &Sop) -> &'static str {
 	match o {
 		Sop::W => "commit",
 		Sop::Big => "big-commit",
+		Sop::TooBig => "oversize-commit",
 		Sop::Checkpoint => "checkpoint",
 		Sop::Drain => "drain",
 		Sop::Reopen => "reopen",
@@ -42,6 +45,7 @@ fn parse(s: &str) -> Sop {
 	match s {
 		"commit" => Sop::W,
 		"big-commit" => Sop::Big,
+		"oversize-commit" => Sop::TooBig,
 		"checkpoint" => Sop::Checkpoint,
 		"drain" => Sop::Drain,
 		_ => Sop::Reopen,
@@ -131,6 +135,14 @@ pub fn run_list(ops: &[Sop]) -> Result<Option<(String, String)>, String> {
 						Err(e) => return Ok(Some((format!("commit-error:{}", crate::props::norm_msg(&e).chars().take(50).collect::<String>()), ctx(e)))),
 					}
 				}
+				Sop::TooBig => {
+					n += 1;
+					match commit_live(&mut w, format!("k{n:03}").as_bytes(), &vec![b'x'; 9000])? {
+						Ok(()) => return Ok(Some(("oversize-commit-acknowledged".into(), ctx("a 9000-byte value was committed into a 4 KiB memtable".into())))),
+						Err(e) if e == "HANG" => return Ok(Some(("commit-never-returns".into(), ctx("oversize commit is still pending after the background tasks ran to quiescence".into())))),
+						Err(_) => {}
+					}
+				}
 				Sop::Checkpoint => {
 					let d = fresh_dir("c17-ck");
 					let r = {
@@ -183,6 +195,18 @@ fn gen(maxlen: usize) -> Vec<Vec<Sop>> {
 		}
 	}
 	rec(&alpha, maxlen, &mut vec![], &mut out);
+	// runs of failing commits (more than the commit queue has slots), then a normal one
+	for k in 1..=12usize {
+		for prefix in [vec![], vec![Sop::W], vec![Sop::W, Sop::Drain]] {
+			let mut l = prefix.clone();
+			l.extend(std::iter::repeat(Sop::TooBig).take(k));
+			l.push(Sop::W);
+			out.push(l.clone());
+			l.push(Sop::Reopen);
+			l.push(Sop::W);
+			out.push(l);
+		}
+	}
 	out.sort_by_key(|l| l.len());
 	out
 }
